@@ -107,6 +107,15 @@ def c13(ctx, rep):
     # texts that are NOT in the documented syntax, by our reading of it (an oracle independent of the front-end's own
     # verdict): invalid escapes in literals and classes (values beyond U+10FFFF, surrogates, short or non-hex digits, unknown
     # letters), unknown Unicode classes, unterminated literals / classes / code blocks / comments, dangling operators
+    # code-block texts at the edge of what the lexer accepts: empty bodies, bodies that are only line breaks or comments,
+    # closing braces inside strings / runes / comments; in every block position
+    BODIES = ["{\n}", "{}", "{ }", "{\n\n}", "{\r\n}", "{\t}", "{\n\n\n}", "{\n//x\n}", "{/*}*/}", "{\n/*\n*/\n}", "{ _ = \"}\" }", "{ _ = '}' }", "{ _ = `}` }",
+              "{\n return nil, nil\n}", "{ return nil, nil }\n", "{{}}", "{\n{\n}\n}"]
+    for body in BODIES:
+        for shape in ("A <- 'a' %s\n", "A <- &%s 'a'\n", "A <- !%s 'a'\n", "A <- #%s 'a'\n", "A <- 'a' %s / 'b' %s\nB <- A\n", "A <- x:'a' y:( 'b' %s ) %s\n"):
+            g = "{\npackage main\n}\n" + shape.replace("%s", body)
+            jobs.append(("blocks", g.encode()))
+        jobs.append(("blocks", (body + "\nA <- 'a'\n").encode()))
     for b in MUST_REJECT:
         jobs.append(("must-reject", ("{\npackage main\n}\n" + b + "\n").encode("utf-8", "surrogatepass")))
     work = []
@@ -115,6 +124,11 @@ def c13(ctx, rep):
         if kind.startswith("stress"):
             fl = ["-support-left-recursion"] if "mutual" in kind else []
         ep = None
+        if kind == "blocks":
+            # every block text is built (no -x, valid entry point): plain and under one random set of generation flags
+            work.append((kind, data, [], None))
+            work.append((kind, data, [f for f in fl if f != "-x"], None))
+            continue
         if not kind.startswith("stress") and rnd.random() < 0.25:
             ep = rnd.choice(["Rule0", "R0", "S", "Nope", "Rule1,Rule2", ""])
             fl += ["-alternate-entrypoints", ep]
@@ -283,6 +297,13 @@ def c04(ctx, rep):
     hdr = "{\npackage main\n}\n"
     fam = []
     fam.append(("inline-shared-label", hdr + "A <- B l1:C { return l1, nil }\nB <- l1:'a' { return l1, nil }\nC <- 'c'\n", [[], ["-optimize-grammar"], ["-optimize-grammar", "-optimize-parser"]]))
+    og = [[], ["-optimize-grammar"], ["-optimize-grammar", "-optimize-parser"]]
+    # a reference under a label, to a rule that uses the same label name itself: after inlining the two scopes nest
+    fam.append(("inline-label-over-same-label", hdr + "A <- l1:B 'x' { return l1, nil }\nB <- l1:[a-z]+ { return l1, nil }\n", og))
+    fam.append(("inline-label-crossed", hdr + "A <- l1:B l2:C { return []any{l1, l2}, nil }\nB <- l2:'a' { return l2, nil }\nC <- l1:'c' { return l1, nil }\n", og))
+    fam.append(("inline-label-chain", hdr + "A <- v:B { return v, nil }\nB <- v:C 'b' { return v, nil }\nC <- v:'c' { return v, nil }\n", og))
+    fam.append(("inline-label-predicates", hdr + "A <- v:B &{ return v != nil, nil } !{ return v == nil, nil }\nB <- v:'b' &{ return v != nil, nil }\n", og))
+    fam.append(("inline-label-in-choice", hdr + "A <- v:( B / 'z' ) w:B { return []any{v, w}, nil }\nB <- w:'b' v:'c'? { return []any{v, w}, nil }\n", og))
     fam.append(("nested-action", hdr + "A <- ( l1:'a' { return l1, nil } ) l2:'c' { return l2, nil }\n", [[], ["-optimize-grammar"]]))
     for k in range(1, 13):
         fam.append(("method-index-%d" % k, hdr + "Start <- A A1\nA <- %s &{ return true, nil }\nA1 <- &{ return true, nil }\n" % " ".join("'a'" for _ in range(k)),
